@@ -3,6 +3,7 @@ package checks
 // Scenario families of the model-based checks C02, C10–C16 (C04 and C19 have their own files).
 
 import (
+	"encoding/hex"
 	"fmt"
 	"math/big"
 
@@ -94,6 +95,21 @@ func valueHistory(g *sim.Genesis) sim.History {
 	}, emptyBlocks(5)...)}
 }
 
+// forwarderHistory: a "picky" receiver K (reverts without value, accepts value) and a forwarder F that calls K
+// first with value 0 (ignoring the revert) and then with its whole call value; value is pushed through F.
+func forwarderHistory(g *sim.Genesis) sim.History {
+	k := sim.CreateAddress("W", 0)
+	fw := append(callTo(k, 0, 0xffff), append(hx2("6000 6000 6000 6000 34"), append(push20(k), hx2("61ffff f1 50 00")...)...)...)
+	big := func(s sim.TxSpec) sim.TxSpec { s.Gas = 500000; return s }
+	return sim.History{Gen: g, Blocks: []sim.Block{
+		blk(deploy("W", hex.EncodeToString(initCodeFor(hx2("34 15 60 06 57 00 5b 60 00 60 00 fd"))), "0"), big(deploy("U0", hex.EncodeToString(initCodeFor(fw)), "0"))),
+		blk(big(call("U1", "contract:1", "", "5R"))),
+		blk(big(call("U1", "contract:1", "", "0")), big(call("U0", "contract:1", "", "1R")), tr("W", "contract:0", "0")),
+		blk(big(call("U1", "contract:0", "", "2R")), big(tr("W", "contract:1", "1R"))),
+		blk(), blk(),
+	}}
+}
+
 func conservation(mc *modelCheck, mr *modelRun, h sim.History, res *engine.Result) []refmodel.Finding {
 	var out []refmodel.Finding
 	prev := mr.Model.Genesis
@@ -135,9 +151,10 @@ func init() {
 			family{Name: "value/g4L", Base: func() sim.History { return valueHistory(genesis4L()) }, Menu: c02Menu(), WithEnv: true, NAppend: 2, MaxD: 1, MaxDTh: 2,
 				Core: coreAppend(blocksSet(2, 3), 12, 1)},
 		)
+		fams = append(fams, family{Name: "value/evm-forwarder(sum only)", Base: func() sim.History { return forwarderHistory(genesis3()) }, Menu: c02Menu()[:12], WithEnv: true, NAppend: 1, MaxD: 1, MaxDTh: 2, SumOnly: true})
 		return &modelCheck{id: "C02", owners: map[string]bool{"C02": true}, balWhy: []string{"*"}, families: fams, extra: conservation,
 			meta: modelMeta("deviation-bounded exhaustive history exploration with reference model + conservation invariant over the implementation's full state",
-				"C02 families: a value history (user stakes, two contracts, 5 free blocks) with up to 3 inserted transactions per block from a 28-template value menu (boundary amounts 1 / balance-fee / balance-fee+1 / 2^255-1 / 2^255 / 2^256-1, self-transfer, boundary-balance sender, staking 1R / 1R+1 / 0, unstaking own / foreign / BOTH genesis stakes, full unstake then re-stake twice in one block, withdrawals 0 / 1 / exact / excessive / repeated, deployment and calls carrying value, value into a reverting contract, plain transfers to contracts) plus evidence, missed signatures (jailing) and proposer-less blocks; D<=2 over the core sub-menu (thorough: 3). "+
+				"C02 families: a value history (user stakes, two contracts, 5 free blocks) with up to 3 inserted transactions per block from a 28-template value menu (boundary amounts 1 / balance-fee / balance-fee+1 / 2^255-1 / 2^255 / 2^256-1, self-transfer, boundary-balance sender, staking 1R / 1R+1 / 0, unstaking own / foreign / BOTH genesis stakes, full unstake then re-stake twice in one block, withdrawals 0 / 1 / exact / excessive / repeated, deployment and calls carrying value, value into a reverting contract, plain transfers to contracts) plus evidence, missed signatures (jailing) and proposer-less blocks; D<=2 over the core sub-menu (thorough: 3); plus a family that pushes value through a forwarding contract into a receiver that first reverts (nested revert, then value to the same address), judged by the model-independent conservation sum only. "+
 					"Oracle: T(h) = sum of ALL balances + bonded + unbonding power read from the implementation at every height satisfies T(h) = T(h-1) + withdrawn(h) - slashed(h) - feesWithoutProposer(h); no balance exceeds genesis total + all withdrawals (no wrap-around); every individual balance equals the model's.",
 				"contract programs in the menus do not self-destruct (burns by EVM definition are C17's subject)"),
 			guards: func(a *engine.Agg) []string {
@@ -199,7 +216,7 @@ func init() {
 	engine.Register("C10", func() engine.Check {
 		fams := append(sharedFamilies(),
 			family{Name: "candidates/max3", Base: func() sim.History { return c10History(genesis4c("3")) }, Menu: c10Menu(), WithEnv: true, NAppend: 2, MaxD: 2, MaxDTh: 3,
-				Core: coreAppend(blocksSet(0, 1, 2, 3, 4, 5), 10, 0), Restarts: []int64{2, 4, 6}},
+				Core: coreAppend(blocksSet(1, 2, 3, 4, 5), 10, 1), Restarts: []int64{2, 4, 6}},
 			family{Name: "candidates/max2", Base: func() sim.History { return c10History(genesis4c("2")) }, Menu: c10Menu(), WithEnv: true, NAppend: 2, MaxD: 2, MaxDTh: 2,
 				Core: coreAppend(blocksSet(1, 2, 4), 10, 0), Restarts: []int64{3, 5}},
 		)
@@ -342,9 +359,13 @@ func init() {
 			family{Name: "unbonding/period2->4", Base: func() sim.History { return c12History(genesis3(), "4") }, Menu: c12Menu(), WithEnv: true, NAppend: 2, MaxD: 2, MaxDTh: 2,
 				Core: coreAppend(blocksSet(4, 5, 6), 6, 0)},
 		)
+		fams = append(fams, family{Name: "unbonding/period4->1", Base: func() sim.History {
+			h := c12History(gWith(genesis3(), "lazyRewardBlocks", "4"), "1")
+			return h
+		}, Menu: c12Menu(), WithEnv: true, NAppend: 2, MaxD: 2, MaxDTh: 2, Core: coreAppend(blocksSet(3, 4, 5, 6), 4, 0)})
 		return &modelCheck{id: "C12", owners: map[string]bool{"C12": true}, balWhy: []string{"refund"}, families: fams,
 			meta: modelMeta("deviation-bounded exhaustive history exploration with reference model of the unbonding queue",
-				"C12 families: stakes by two delegators and the validator itself, unstake attempts by owner / delegatee / stranger / another delegator, 1-3 stakes unbonding concurrently (also force-released by the validator leaving), and a governance change of the unbonding period (2->1 and 2->4) landing before, at and after releases; 10 blocks; D<=2 (thorough 3). "+
+				"C12 families: stakes by two delegators and the validator itself, unstake attempts by owner / delegatee / stranger / another delegator, 1-3 stakes unbonding concurrently (also force-released by the validator leaving), and a governance change of the unbonding period (2->1, 2->4 and 4->1) landing before, at and after releases; 10 blocks; D<=2 (thorough 3). "+
 					"Oracle: an unstake succeeds only for the stake's owner; from release on the stake is in the unbonding list (and carries no power: C11's sums); it is refunded exactly once, in full (power x 10^18), to the owner, at release + the period in force at release and not before; the unbonding list and every touched balance equal the model's at every height.")}
 	})
 }
@@ -361,6 +382,8 @@ func c13History(g *sim.Genesis) sim.History {
 
 func c13Menu() []sim.TxSpec {
 	return []sim.TxSpec{
+		unstk("U0", "U0", "V1", 0),
+		stk("U1", "V1", "3R"),
 		wdr("V0", "84"),
 		wdr("V0", "85"),
 		wdr("V0", "1"),
@@ -369,7 +392,6 @@ func c13Menu() []sim.TxSpec {
 		wdr("V0", "0"),
 		wdr("V0", "100000"),
 		wdr("V0", "168"),
-		unstk("U0", "U0", "V1", 0),
 		stk("U0", "V0", "1R"),
 		wdr("W", "1"),
 	}
